@@ -31,6 +31,22 @@ def overLimit (rows : List Row) : Bool :=
 
 def handleC01 (op : String) (input impl : Json) : Except String Json := do
   match op with
+  | "ingest-big" =>
+    -- size boundary: n distinct keys; the model's closed form (C01_unique_exact + C19_block_cut):
+    -- n rows read back in key order, ceil(n / blockSize) blocks, one index per block
+    let n ← natFld input "n"
+    let bs := Facts.blockSize
+    let mj := Json.mkObj [("rowsCount", jNat n), ("blocks", jNat ((n + bs - 1) / bs)), ("blockIndices", jNat ((n + bs - 1) / bs)),
+                          ("readBack", jNat n), ("exactRowsInKeyOrder", Json.bool true)]
+    if resClass impl == "panic" then return reply mj false ["no-panic"]
+    if resClass impl != "ok" then return reply mj false ["unexpected-error"]
+    let v := fldD impl "val" Json.null
+    let g := fun (k : String) => (fldD v k (jNat 0)).getNat?.toOption.getD 0
+    let viol :=
+      (if g "rowsCount" == n && g "readBack" == n then [] else ["no-row-dropped-or-duplicated"]) ++
+      (if g "blocks" == (n + bs - 1) / bs && g "blockIndices" == g "blocks" then [] else ["block-count"]) ++
+      (if (fldD v "exactRowsInKeyOrder" (Json.bool false)).getBool?.toOption.getD false then [] else ["rows-identical-in-ascending-key-order"])
+    return reply mj viol.isEmpty viol
   | "ingest" =>
     if (input.getObjVal? "columns").toOption.isNone then
       return reply (Json.mkObj [("res", "err")]) true []   -- the CSV could not be re-read: not a case
